@@ -26,6 +26,16 @@ use std::path::{Path, PathBuf};
 /// larger outputs grow as their sectors are actually decoded
 const MAX_PREALLOC: usize = 16 * 1024 * 1024;
 
+/// Position in the file of an offset the archive stores relative to its own start.
+/// Such offsets come from the header and the tables and span the full 64 bits.
+fn offset_in_file(archive_offset: u64, relative: u64) -> Result<u64> {
+    archive_offset.checked_add(relative).ok_or_else(|| {
+        Error::invalid_format(format!(
+            "Offset 0x{relative:X} behind the archive start at 0x{archive_offset:X} exceeds 64 bits"
+        ))
+    })
+}
+
 /// Detailed information about an MPQ archive
 #[derive(Debug, Clone)]
 pub struct ArchiveInfo {
@@ -360,12 +370,10 @@ impl Archive {
                     // HET table key is based on table name
                     let key = hash_string("(hash table)", hash_type::FILE_KEY);
 
-                    match HetTable::read(
-                        &mut self.reader,
-                        self.archive_offset + het_pos,
-                        het_size,
-                        key,
-                    ) {
+                    let het_offset = offset_in_file(self.archive_offset, het_pos);
+                    match het_offset
+                        .and_then(|offset| HetTable::read(&mut self.reader, offset, het_size, key))
+                    {
                         Ok(het) => {
                             let file_count = het.header.max_file_count;
                             log::info!("Loaded HET table with {file_count} max files");
@@ -407,10 +415,11 @@ impl Archive {
                 if bet_size > 0 {
                     log::debug!("Loading BET table from offset 0x{bet_pos:X}, size 0x{bet_size:X}");
 
+                    let bet_offset = offset_in_file(self.archive_offset, bet_pos)?;
+
                     // First, check if the BET offset actually points to a HET table
                     // This is a known issue in some MoP update archives
-                    self.reader
-                        .seek(SeekFrom::Start(self.archive_offset + bet_pos))?;
+                    self.reader.seek(SeekFrom::Start(bet_offset))?;
                     let mut sig_buf = [0u8; 4];
                     self.reader.read_exact(&mut sig_buf)?;
 
@@ -423,18 +432,12 @@ impl Archive {
                         );
                     } else {
                         // Reset position and proceed with normal BET loading
-                        self.reader
-                            .seek(SeekFrom::Start(self.archive_offset + bet_pos))?;
+                        self.reader.seek(SeekFrom::Start(bet_offset))?;
 
                         // BET table key is based on table name
                         let key = hash_string("(block table)", hash_type::FILE_KEY);
 
-                        match BetTable::read(
-                            &mut self.reader,
-                            self.archive_offset + bet_pos,
-                            bet_size,
-                            key,
-                        ) {
+                        match BetTable::read(&mut self.reader, bet_offset, bet_size, key) {
                             Ok(bet) => {
                                 let file_count = bet.header.file_count;
                                 log::info!("Loaded BET table with {file_count} files");
@@ -674,7 +677,7 @@ impl Archive {
                 let file_size = self.reader.get_ref().metadata()?.len();
                 let next_section = if let Some(hi_block_pos) = self.header.hi_block_table_pos {
                     if hi_block_pos != 0 {
-                        self.archive_offset + hi_block_pos
+                        self.archive_offset.saturating_add(hi_block_pos)
                     } else {
                         file_size
                     }
@@ -756,8 +759,11 @@ impl Archive {
         if let Some(hi_block_pos) = self.header.hi_block_table_pos
             && hi_block_pos != 0
         {
-            let hi_block_offset = self.archive_offset + hi_block_pos;
-            let hi_block_end = hi_block_offset + (self.header.block_table_size as u64 * 8);
+            // A position that runs past 64 bits lies beyond the file like any other
+            // out-of-range one
+            let hi_block_offset = self.archive_offset.saturating_add(hi_block_pos);
+            let hi_block_end =
+                hi_block_offset.saturating_add(self.header.block_table_size as u64 * 8);
 
             let file_size = self.reader.get_ref().metadata()?.len();
             if hi_block_end > file_size {
@@ -829,8 +835,8 @@ impl Archive {
             }
 
             // Read raw table data
-            self.reader
-                .seek(SeekFrom::Start(self.archive_offset + offset))?;
+            let table_offset = offset_in_file(self.archive_offset, offset)?;
+            self.reader.seek(SeekFrom::Start(table_offset))?;
             // The size comes from the archive header: read through a length-limited
             // adapter instead of allocating it up front
             let mut table_data = Vec::new();
@@ -857,10 +863,7 @@ impl Archive {
                 }
                 Err(e) => {
                     log::warn!(
-                        "Failed to read table data for MD5 validation at offset 0x{:X}, size {}: {}",
-                        self.archive_offset + offset,
-                        size,
-                        e
+                        "Failed to read table data for MD5 validation at offset 0x{table_offset:X}, size {size}: {e}"
                     );
                     Ok(false)
                 }
@@ -1236,7 +1239,10 @@ impl Archive {
                                     filename: filename.to_string(),
                                     hash_index: 0, // Not applicable for HET/BET
                                     block_index: candidate_index as usize,
-                                    file_pos: self.archive_offset + bet_info.file_pos,
+                                    file_pos: offset_in_file(
+                                        self.archive_offset,
+                                        bet_info.file_pos,
+                                    )?,
                                     compressed_size: bet_info.compressed_size,
                                     file_size: bet_info.file_size,
                                     flags: bet_info.flags,
@@ -2095,7 +2101,7 @@ impl Archive {
                 .ok_or_else(|| Error::invalid_format("Invalid file index"))?;
 
             // For HET/BET files, the file position is calculated differently
-            let file_pos = self.archive_offset + bet_info.file_pos;
+            let file_pos = offset_in_file(self.archive_offset, bet_info.file_pos)?;
 
             FileInfo {
                 filename: format!("file_{hash_index:08}.dat"),
@@ -2809,10 +2815,13 @@ impl Archive {
         let file_size = self.reader.get_ref().metadata()?.len();
 
         // Calculate expected archive end position
-        let archive_end = self.archive_offset + self.header.get_archive_size();
+        // An archive size that runs past 64 bits leaves no room for a signature either
+        let archive_end = self
+            .archive_offset
+            .saturating_add(self.header.get_archive_size());
 
         // Check if there's enough space for a strong signature after the archive
-        if file_size < archive_end + STRONG_SIGNATURE_SIZE as u64 {
+        if file_size < archive_end.saturating_add(STRONG_SIGNATURE_SIZE as u64) {
             log::debug!("File too small for strong signature");
             return Ok(SignatureStatus::None);
         }
